@@ -27,9 +27,13 @@ pub enum Dev {
     DeliveredTwice,
     /// approved for this app, but another approval of the same content exists for the other app too
     AlsoApprovedForOtherApp,
+    /// delivered, then the same signed approval batch is submitted to the gateway again, then delivered again
+    ResubmittedApprovalAfterDelivery,
+    /// delivered, then an approval for the same id with other content is submitted, then that content is delivered
+    ReapprovedOtherContentAfterDelivery,
 }
 
-const DEVS: [Dev; 9] = [
+const DEVS: [Dev; 11] = [
     Dev::None,
     Dev::NeverApproved,
     Dev::ApprovedForOtherApp,
@@ -39,6 +43,8 @@ const DEVS: [Dev; 9] = [
     Dev::ApprovedOtherChain,
     Dev::DeliveredTwice,
     Dev::AlsoApprovedForOtherApp,
+    Dev::ResubmittedApprovalAfterDelivery,
+    Dev::ReapprovedOtherContentAfterDelivery,
 ];
 
 #[derive(Clone, Debug, Serialize, Deserialize)]
@@ -58,10 +64,10 @@ impl Property for C16 {
         "C16"
     }
     fn rule(&self) -> &'static str {
-        "proptest single cases: app (the shipped example / a minimal harness app that calls the interface's validate_message helper and aborts on error) x delivery (chain, id, source address from small pools incl. empty strings; payload 0..600 bytes) x at most one deviation (never approved; approved for another app / payload / source address / id / chain; delivered twice; additionally approved for the other app). All 2x9 app x deviation combinations are also enumerated as fixed cases. Oracle: the app's effect (its executed event / counter) and the gateway's transition to executed happen iff the gateway held a matching unexecuted approval naming this app; otherwise the delivery fails, nothing is emitted and the ledger snapshot is identical. non-trivial = a deviation is present; distinct by Debug hash"
+        "proptest single cases: app (the shipped example / a minimal harness app that calls the interface's validate_message helper and aborts on error) x delivery (chain, id, source address from small pools incl. empty strings; payload 0..600 bytes) x at most one deviation (never approved; approved for another app / payload / source address / id / chain; delivered twice; additionally approved for the other app; approval re-submitted, or the id re-approved with other content, after delivery). All 2x11 app x deviation combinations are also enumerated as fixed cases. Oracle: the app's effect (its executed event / counter) and the gateway's transition to executed happen iff the gateway held a matching unexecuted approval naming this app; otherwise the delivery fails, nothing is emitted and the ledger snapshot is identical. non-trivial = a deviation is present; distinct by Debug hash"
     }
     fn fixed_is_exhaustive(&self) -> Option<&'static str> {
-        Some("app x deviation matrix (2 x 9) enumerated completely with one fixed delivery; deliveries sampled")
+        Some("app x deviation matrix (2 x 11) enumerated completely with one fixed delivery; deliveries sampled")
     }
     fn cases(&self, tier: Tier) -> u64 {
         tier.pick(20000, 200000)
@@ -108,7 +114,7 @@ impl Property for C16 {
         let mut p2 = payload.clone();
         p2.push(1);
         let approvals: Vec<Message> = match case.dev {
-            Dev::None | Dev::DeliveredTwice => vec![mk(&app, chain, id, src, &payload)],
+            Dev::None | Dev::DeliveredTwice | Dev::ResubmittedApprovalAfterDelivery | Dev::ReapprovedOtherContentAfterDelivery => vec![mk(&app, chain, id, src, &payload)],
             Dev::NeverApproved => vec![],
             Dev::ApprovedForOtherApp => vec![mk(&other_app, chain, id, src, &payload)],
             Dev::ApprovedOtherPayload => vec![mk(&app, chain, id, src, &p2)],
@@ -138,7 +144,7 @@ impl Property for C16 {
         let app_events = |from: u32| -> usize { events_since(&env, from).into_iter().filter(|e| e.0 == app).count() };
         let executed = || gw.client.is_message_executed(&sstr(&env, chain), &sstr(&env, id));
 
-        let matching = matches!(case.dev, Dev::None | Dev::DeliveredTwice | Dev::AlsoApprovedForOtherApp);
+        let matching = matches!(case.dev, Dev::None | Dev::DeliveredTwice | Dev::AlsoApprovedForOtherApp | Dev::ResubmittedApprovalAfterDelivery | Dev::ReapprovedOtherContentAfterDelivery);
         let snap0 = snapshot(&env);
         let ev0 = events_len(&env);
         let count0 = mini.count();
@@ -158,6 +164,26 @@ impl Property for C16 {
             cx.count("must_fail");
             ensure_p!(!again, "a delivered message was accepted by the app a second time");
             ensure_p!(snapshot(&env) == snap1 && events_len(&env) == ev1, "second delivery had effects");
+            match case.dev {
+                Dev::ResubmittedApprovalAfterDelivery => {
+                    // anybody can re-submit the (public) signed batch; the id stays executed
+                    gw.approve(&env, &set, &approvals)?;
+                    env.set_auths(&[]);
+                    let ev2 = events_len(&env);
+                    ensure_p!(!deliver(), "a delivered message was accepted again after its approval had been re-submitted to the gateway");
+                    ensure_p!(app_events(ev2) == 0, "the app acted on a re-opened message");
+                    ensure_p!(executed(), "gateway no longer reports the message executed");
+                }
+                Dev::ReapprovedOtherContentAfterDelivery => {
+                    gw.approve(&env, &set, &[mk(&app, chain, id, src, &p2)])?;
+                    env.set_auths(&[]);
+                    let ev2 = events_len(&env);
+                    let again2 = matches!(client.try_execute(&sstr(&env, chain), &sstr(&env, id), &sstr(&env, src), &Bytes::from_slice(&env, &p2)), Ok(Ok(())));
+                    ensure_p!(!again2, "an executed message id was delivered again with other content after a new approval for that id");
+                    ensure_p!(app_events(ev2) == 0, "the app acted on a re-used message id");
+                }
+                _ => {}
+            }
         } else {
             cx.count("must_fail");
             ensure_p!(!ok, "the app executed a delivery for which the gateway holds no matching approval ({:?})", case.dev);
